@@ -600,9 +600,6 @@ impl<'a> Ev<'a> {
             }
             S::Text(t) => {
                 self.co("text->num");
-                if is_inf_nan(t) {
-                    self.trig("c06-inf-nan-text");
-                }
                 match text_number(t)? {
                     Some(n) => Ok(n),
                     None => Err(E_VALUE.to_string()),
@@ -1260,9 +1257,6 @@ impl<'a> Ev<'a> {
                             }
                             S::Text(t) => {
                                 self.co("text->num");
-                                if is_inf_nan(t) {
-                                    self.trig("c06-inf-nan-text");
-                                }
                                 if text_number(t)?.is_some() {
                                     n += 1
                                 }
@@ -1626,14 +1620,14 @@ fn trigger_signature(t: &str, sub: &E) -> Option<String> {
         "c06-and-or-short-circuit" => "C06:and-or:error-after-deciding-argument-is-ignored".to_string(),
         "c06-and-or-direct-text" => "C06:and-or:direct-text-argument-is-ignored".to_string(),
         "c06-min-max-direct" => "C06:min-max:direct-boolean-or-text-argument-is-ignored".to_string(),
-        "c06-inf-nan-text" => "C06:text-to-number:inf-nan-accepted".to_string(),
         "c06-round-decimal" => "C06:round:binary-scaling-is-not-decimal-rounding".to_string(),
         "c06-round-overflow" => "C06:round:scaling-overflows-for-huge-values".to_string(),
         "c06-zero-pow-negative" => "C06:power:zero-to-negative-exponent-is-not-div0".to_string(),
         "c06-non-finite-intermediate" => "C06:non-finite-intermediate-result-is-a-number".to_string(),
         // repaired in the engine (evaluate_cell hands dependents the stored value): no longer a
         // class of its own; the next broken rule of the node names the failure
-        "c06-raw-non-finite-cell" | "c06-raw-empty-cell" => return None,
+        // (likewise the texts "inf" / "nan", no longer taken for numbers)
+        "c06-raw-non-finite-cell" | "c06-raw-empty-cell" | "c06-inf-nan-text" => return None,
         "c06-compare-abs-epsilon" => "C06:compare:numbers-closer-than-f64-epsilon-are-equal".to_string(),
         "c06-lifted-compare-error" => "C06:lifted:comparison-with-error-element-gives-boolean".to_string(),
         "c06-lifted-concat-array" => "C06:lifted:CONCAT-of-array-not-implemented".to_string(),
